@@ -28,9 +28,11 @@ func genEnv(r *vh.Rng, exact bool) *genWorld {
 	g := &genWorld{N: r.Range(3, 8), H: r.Range(2, 8), exact: exact}
 	g.w = &world{sel: map[int64][]int64{}}
 	if !exact {
+		// selector ids 1..6: the id fixes the shape of a label selector (labelSelector)
+		off := r.Range(0, 3)
 		for s := 1; s <= r.Range(1, 3); s++ {
-			g.w.sel[int64(s)] = subset(r, g.N, 1, 2)
-			g.w.selID = append(g.w.selID, int64(s))
+			g.w.sel[int64(s+off)] = subset(r, g.N, 1, 2)
+			g.w.selID = append(g.w.selID, int64(s+off))
 		}
 	}
 	g.w.nodes = subset(r, g.N, 2, 3)
